@@ -72,6 +72,14 @@ func floatToInt(fns []*ssa.Function) []floatToIntFinding {
 					continue
 				}
 				f := floatToIntFinding{Fn: fn, Conv: cv, Operand: e.Term(cv.X)}
+				if bo, ok := cv.X.(*ssa.BinOp); ok && bo.Op == token.ADD {
+					// int(x + 0.5): rounds non-negative quantities (Hz, percent)
+					for _, o := range []ssa.Value{bo.X, bo.Y} {
+						if k, ok := o.(*ssa.Const); ok && k.Value != nil && k.Value.ExactString() == "1/2" {
+							f.Rounded = true
+						}
+					}
+				}
 				if call, ok := cv.X.(*ssa.Call); ok {
 					switch flow.CalleeName(call.Common()) {
 					case "math.Round", "math.RoundToEven":
@@ -99,11 +107,12 @@ type P int
 func Trunc(f float64) P   { return P(f * 100) }
 func Round(f float64) P   { return P(math.Round(f * 100)) }
 func Floor(f float64) int { return int(math.Floor(f*100 + 0.5)) }
+func Half(f float64) int  { return int(f*100 + 0.5) }
 `
 
 func c17Rounded(c *Ctx) {
 	const rule = "R1.rounded"
-	c.Run.Rule(rule, "every float→integer conversion in package backend takes its operand from math.Round (truncation of f*k loses e.g. 0.29*100 → 28)")
+	c.Run.Rule(rule, "every float→integer conversion in an Unmarshal* method of package backend takes its operand from math.Round (or x+0.5 / math.Floor(x+0.5)); truncation of f*k loses e.g. 0.29*100 → 28")
 	sp := c.Prog.SSAPkg("backend")
 	if sp == nil {
 		c.Run.Unknown(rule, "backend", "", "package backend loaded", "missing")
@@ -114,6 +123,11 @@ func c17Rounded(c *Ctx) {
 		c.Run.Saw("functions scanned for float→int conversions", fnKey(fn))
 	}
 	for _, f := range floatToInt(fns) {
+		if !strings.HasPrefix(f.Fn.Name(), "Unmarshal") {
+			// only the decode direction is an obligation of C17; other conversions are listed
+			c.Run.Saw("float→int conversions outside Unmarshal* (not an obligation)", fnKey(f.Fn)+": "+f.Operand.String())
+			continue
+		}
 		key := fmt.Sprintf("%s/convert:%s->%s", fnKey(f.Fn), f.Conv.X.Type().String(), types.TypeString(f.Conv.Type(), func(*types.Package) string { return "" }))
 		if f.Rounded {
 			c.Run.OK(rule, key, ipos(c, f.Conv), "operand is math.Round(…)", f.Operand.String(), true)
@@ -128,10 +142,10 @@ func c17Rounded(c *Ctx) {
 		return
 	}
 	got := map[string]bool{}
-	for _, f := range floatToInt([]*ssa.Function{fsp.Func("Trunc"), fsp.Func("Round"), fsp.Func("Floor")}) {
+	for _, f := range floatToInt([]*ssa.Function{fsp.Func("Trunc"), fsp.Func("Round"), fsp.Func("Floor"), fsp.Func("Half")}) {
 		got[f.Fn.Name()] = f.Rounded
 	}
-	okFx := len(got) == 3 && !got["Trunc"] && got["Round"] && got["Floor"]
+	okFx := len(got) == 4 && !got["Trunc"] && got["Round"] && got["Floor"] && got["Half"]
 	if okFx {
 		c.Run.OK(rule, "fixture/int(f*k)-fires", "", "matcher reports P(f*100) and accepts math.Round / math.Floor(x+0.5)", fmt.Sprint(got), false)
 	} else {
@@ -293,7 +307,10 @@ func c17Pairs(c *Ctx) {
 					if inner.Op == "conv" {
 						inner = inner.Args[0]
 					}
-					if inner.Op == "call" && (inner.Val == "math.Round" || inner.Val == "math.RoundToEven") && len(inner.Args) == 1 {
+					if inner.Op == "call" && (inner.Val == "math.Round" || inner.Val == "math.RoundToEven" || inner.Val == "math.Floor") && len(inner.Args) == 1 {
+						inner = inner.Args[0]
+					}
+					if inner.Op == "bin" && inner.Val == "+" && len(inner.Args) == 2 && inner.Args[1].String() == "0.5" {
 						inner = inner.Args[0]
 					}
 					rk := fmt.Sprintf("%s/success#%d", key, n)
@@ -309,7 +326,7 @@ func c17Pairs(c *Ctx) {
 						if kM != nil {
 							checkTerm(c, rule, "backend."+T.name+"/same-constant", ipos(c, r), "multiplier on decode (the divisor used on encode)", k, kM)
 						}
-					} else if got.IsUnknown() {
+					} else if got.IsUnknown() || termDepth(got) > 2 {
 						c.Run.Unknown(rule, rk+"/stored", ipos(c, r), "*v = int(round(parsed * "+kWant.String()+"))", got.String())
 					} else {
 						c.Run.Bad(rule, rk+"/stored", ipos(c, r), "*v = int(round(parsed * "+kWant.String()+"))", got.String())
@@ -546,7 +563,7 @@ func c17Envelope(c *Ctx) {
 				if !flow.Implies(pc, flow.Eq(flow.Extract(wrapCall, 1), flow.Nil())) {
 					c.Run.Bad(rule, fmt.Sprintf("%s/wrapped#%d/after-success", key, nWrap), ipos(c, r), "the wrapped key is returned only when keywrap.Wrap succeeded", short(pc.Pretty()))
 				}
-			case aes.IsUnknown():
+			case aes.IsUnknown() || (termDepth(aes) > 2 && !sameShape(aes, wrapped)) || unknownHelper(aes, []string{wrapped.String()}) != "":
 				c.Run.Unknown(rule, key+"/return:AESKey", ipos(c, r), "AESKey = key[:] or keywrap.Wrap(aes.NewCipher(kek), key[:])", aes.String())
 			default:
 				c.Run.Bad(rule, key+"/return:AESKey", ipos(c, r), "AESKey = key[:] (clear) or keywrap.Wrap(aes.NewCipher(kek), key[:])#0", aes.String())
